@@ -254,6 +254,10 @@ def text_mutants(seed, tier, cases):
             out.append(''.join(t))
         else:
             out.append(' '.join(rng.choice(toks) for _ in range(rng.randint(1, 30))))
+    # include cycles through a rule that is defined twice (the second definition breaks the cycle only for a checker that looks
+    # at the last definition of a name), includes of undefined / char / extern rules
+    out += ["A = >B; B = >A; B = 'x';", "@export S = 's' [>S]; S = 's';", "A = >B | 'a'; B = >Cc; Cc = >A; Cc = 'c'; A = 'z';",
+            "A = >B; @char B = 'x';", "A = >B; @extern(f) B;", "A = >A;\nA = 'x';"]
     # moderately deep nesting (the unbounded case is known finding K2 and replayed separately)
     for d in (10, 50, 200):
         out.append('A = ' + '(' * d + "'x'" + ')' * d + ';')
